@@ -408,3 +408,8 @@ func FuzzVerify(f *testing.F) {
 		}
 	})
 }
+
+// FuzzGenVerify: the structured generator driven by Go's coverage-guided fuzzer (thorough tier).
+func FuzzGenVerify(f *testing.F) {
+	h.FuzzSub(f, h.Sub[sigCase]{Prop: "C01", Name: "verify", Gen: genVerify, Check: checkVerify})
+}
